@@ -55,6 +55,9 @@ type Disk struct {
 	// SnapshotIters makes iterators operate on a point-in-time copy, as LevelDB
 	// iterators do. (GoMemDB iterators are live views.)
 	SnapshotIters bool
+	// StableIterSlices turns off the emulation of LevelDB's "valid until the
+	// iterator moves" rule for Key()/Value() slices.
+	StableIterSlices bool
 	Reads, Writes, Iters int
 }
 
@@ -322,11 +325,54 @@ func (db *DB) Iterator(start, end []byte, reverse bool) dbm.Iterator {
 		}
 		s = c
 	}
-	it := s.Iterator(start, end, reverse)
+	var it dbm.Iterator = s.Iterator(start, end, reverse)
+	if !db.disk.StableIterSlices {
+		it = &aliasIt{Iterator: it}
+	}
 	if db.disk.Hooks.Yield != nil {
 		return &yieldIt{Iterator: it, d: db.disk, site: "db.next:" + db.name}
 	}
 	return it
+}
+
+// aliasIt gives Key() and Value() the validity goleveldb's iterator gives them:
+// the iterator owns one key and one value buffer which it refills in place each
+// time it lands on an entry, so a slice kept from before the move now shows the
+// new entry (goleveldb: "contents may change on the next call to any seek
+// method"). The memdb iterator underneath returns stable slices, which would
+// hide code that keeps Key()/Value() without copying. Nothing is overwritten
+// when the iterator is exhausted or closed, exactly as with goleveldb.
+type aliasIt struct {
+	dbm.Iterator
+	kbuf, vbuf []byte
+}
+
+func (a *aliasIt) land(ok bool) bool {
+	if ok && a.Iterator.Valid() {
+		a.kbuf = append(a.kbuf[:0], a.Iterator.Key()...)
+		a.vbuf = append(a.vbuf[:0], a.Iterator.Value()...)
+	}
+	return ok
+}
+func (a *aliasIt) Next() bool         { return a.land(a.Iterator.Next()) }
+func (a *aliasIt) Rewind() bool       { return a.land(a.Iterator.Rewind()) }
+func (a *aliasIt) Seek(k []byte) bool { return a.land(a.Iterator.Seek(k)) }
+func (a *aliasIt) Key() []byte {
+	if !a.Iterator.Valid() {
+		return a.Iterator.Key()
+	}
+	if a.kbuf == nil || !bytes.Equal(a.kbuf, a.Iterator.Key()) { // positioned without a move call
+		a.kbuf = append(a.kbuf[:0], a.Iterator.Key()...)
+		a.vbuf = append(a.vbuf[:0], a.Iterator.Value()...)
+	}
+	return a.kbuf
+}
+func (a *aliasIt) Value() []byte {
+	if !a.Iterator.Valid() {
+		return a.Iterator.Value()
+	}
+	a.Key()
+	return a.vbuf
 }
 
 type yieldIt struct {
